@@ -2540,6 +2540,11 @@ func opaqueOp(op token.Token, l, r BitVec, w int) AVal {
 			return AVal{K: AInt, Bits: mixVec(w)}
 		}
 	}
+	if (op == token.ADD || op == token.SUB) && len(l) == w && len(r) == w {
+		if v, ok := affineOp(op, l, r, w); ok {
+			return v
+		}
+	}
 	ln, rn := NameBits(l), NameBits(r)
 	if (op == token.ADD || op == token.MUL) && rn < ln {
 		ln, rn = rn, ln
@@ -2968,3 +2973,183 @@ func (ex *Exec) intrinsic(s *astate, name string, args []AVal, x *ssa.Call) (AVa
 
 // SameAVal reports whether two abstract values are structurally identical.
 func SameAVal(a, b AVal) bool { return sameAVal(a, b) }
+
+// ---- affine normal form of sums -------------------------------------------------------------
+//
+// x+4-1, 3+x and (x+1)+2 are one value. Sums and differences are kept in a canonical shape:
+// the constants folded into one, the other operands sorted by name, so that the name of an
+// opaque sum (which is what index expressions, cells and facts are keyed by) does not depend on
+// how the source text associates it. Arithmetic is modulo 2^w throughout, so the rearrangement
+// is exact.
+
+type affTerm struct {
+	name string
+	bits BitVec
+	coef int64
+}
+
+func affineOf(b BitVec, depth int) (c int64, terms []affTerm, ok bool) {
+	if depth > 24 {
+		return 0, nil, false
+	}
+	if k, isK := constOfBits(b); isK {
+		return signExt(k, len(b)), nil, true
+	}
+	for _, x := range b {
+		if x.Kind == BMix {
+			return 0, nil, false
+		}
+	}
+	name := NameBits(b)
+	if d, has := opaqueDefs[name]; has && (d.op == token.ADD || d.op == token.SUB) && len(d.l) == len(b) && len(d.r) == len(b) {
+		if src, plain := plainSource(b); plain && src == name {
+			cl, tl, okL := affineOf(d.l, depth+1)
+			cr, tr, okR := affineOf(d.r, depth+1)
+			if okL && okR {
+				sign := int64(1)
+				if d.op == token.SUB {
+					sign = -1
+				}
+				c = cl + sign*cr
+				terms = append(terms, tl...)
+				for _, t := range tr {
+					t.coef *= sign
+					terms = append(terms, t)
+				}
+				return c, terms, true
+			}
+		}
+	}
+	return 0, []affTerm{{name, b, 1}}, true
+}
+
+func affineOp(op token.Token, l, r BitVec, w int) (AVal, bool) {
+	cl, tl, okL := affineOf(l, 0)
+	cr, tr, okR := affineOf(r, 0)
+	if !okL || !okR {
+		return AVal{}, false
+	}
+	sign := int64(1)
+	if op == token.SUB {
+		sign = -1
+	}
+	c := cl + sign*cr
+	merged := map[string]*affTerm{}
+	var names []string
+	add := func(t affTerm, s int64) {
+		if m, has := merged[t.name]; has {
+			m.coef += s * t.coef
+			return
+		}
+		nt := t
+		nt.coef = s * t.coef
+		merged[t.name] = &nt
+		names = append(names, t.name)
+	}
+	for _, t := range tl {
+		add(t, 1)
+	}
+	for _, t := range tr {
+		add(t, sign)
+	}
+	sort.Strings(names)
+	var pos, neg []affTerm
+	for _, n := range names {
+		t := *merged[n]
+		switch {
+		case t.coef == 0:
+		case t.coef > 0 && t.coef <= 3:
+			for i := int64(0); i < t.coef; i++ {
+				pos = append(pos, t)
+			}
+		case t.coef < 0 && t.coef >= -3:
+			for i := int64(0); i < -t.coef; i++ {
+				neg = append(neg, t)
+			}
+		default:
+			return AVal{}, false
+		}
+	}
+	// the constant, as a w-bit two's complement number
+	if w < 64 {
+		c = signExt(uint64(c)&(1<<uint(w)-1), w)
+	}
+	mk := func(o token.Token, a, b BitVec, name string) BitVec {
+		if len(name) > 600 || strings.ContainsAny(name, "^") {
+			return nil
+		}
+		opaqueDefs[name] = opaqueDef{op: o, l: append(BitVec(nil), a...), r: append(BitVec(nil), b...)}
+		return regSource(name, w)
+	}
+	var acc BitVec
+	accName := ""
+	if len(pos) > 0 {
+		acc, accName = pos[0].bits, pos[0].name
+		pos = pos[1:]
+	} else if len(neg) > 0 {
+		// c - x …: start from the constant
+		acc, accName = constBits(uint64(c), w), fmt.Sprintf("%d", uint64(c)&widthMask(w))
+		c = 0
+	} else {
+		return AVal{K: AInt, Bits: constBits(uint64(c), w)}, true
+	}
+	for _, t := range pos {
+		name := "(" + accName + "+" + t.name + ")"
+		if acc = mk(token.ADD, acc, t.bits, name); acc == nil {
+			return AVal{}, false
+		}
+		accName = name
+	}
+	for _, t := range neg {
+		name := "(" + accName + "-" + t.name + ")"
+		if acc = mk(token.SUB, acc, t.bits, name); acc == nil {
+			return AVal{}, false
+		}
+		accName = name
+	}
+	switch {
+	case c > 0:
+		name := fmt.Sprintf("(%d+%s)", c, accName)
+		if acc = mk(token.ADD, constBits(uint64(c), w), acc, name); acc == nil {
+			return AVal{}, false
+		}
+	case c < 0:
+		name := fmt.Sprintf("(%s-%d)", accName, -c)
+		if acc = mk(token.SUB, acc, constBits(uint64(-c), w), name); acc == nil {
+			return AVal{}, false
+		}
+	}
+	if len(acc) != w {
+		// a narrower leaf standing alone (x+0): widen by zero extension is what the caller had
+		out := make(BitVec, w)
+		copy(out, acc)
+		for i := len(acc); i < w; i++ {
+			out[i] = Bit{Kind: BZero}
+		}
+		acc = out
+	}
+	return AVal{K: AInt, Bits: acc}, true
+}
+
+func widthMask(w int) uint64 {
+	if w >= 64 {
+		return math.MaxUint64
+	}
+	return 1<<uint(w) - 1
+}
+
+// LinForm is the affine normal form of an abstract integer: value = C + Σ coef·leaf (mod 2^w).
+func LinForm(b BitVec) (c int64, terms map[string]int64, ok bool) {
+	cc, ts, ok := affineOf(b, 0)
+	if !ok {
+		return 0, nil, false
+	}
+	terms = map[string]int64{}
+	for _, t := range ts {
+		terms[t.name] += t.coef
+		if terms[t.name] == 0 {
+			delete(terms, t.name)
+		}
+	}
+	return cc, terms, true
+}
